@@ -29,4 +29,8 @@ TEXT = {
   text="c10_bounded (store reads <= min(amount, MaxRangeRequestSize) for ALL uint64 origin/amount incl. wrap-around and every store shape) and c10_reply_exact (every OK reply is exactly the store's headers origin, origin+1, ... - full, or a prefix only when the range runs past head; origin 0 = head; empty store never yields data) about the model of requestHandler+handleRangeRequest; the real ExchangeServer is driven over mocknet streams with a recording Store proxy on boundary grids, random requests, hash requests and arbitrary bytes and compared reply-for-reply and read-for-read with the model.",
   note="Lean kernel; hand model tied by executing requests against the real server; MaxRangeRequestSize regenerated from interface.go; libp2p/serde are runtime; 'no hang' is a real-time observation.",
   technique="Lean 4 proof (UInt64 arithmetic, total function) + differential execution over mocknet"),
+ "C06": dict(
+  text="Clean restart: c06_clean_restart for every reachable state (same ends and height, exactly the mentioned headers incl. queued/pending ones, invariant) + c06_stop_keeps_head. Crash: c06_reopen_ends_resolve for ARBITRARY images (dangling pointers dropped, remaining ends resolve), c06_reopen_between_partial under the explicit NoHole hypothesis, c06_crash_counterexample proving the unconditional clause false (finding F14), c06_continuation_reaches_tip. Which images a crash can leave is taken from the real Store: the harness reopens a fresh real Store on EVERY prefix of the recorded commit log of random histories (plain and context-aware datastores), checks the property predicate on it and compares it with the model's reopen of the same image; 1..3 consecutive failing flush commits are injected and the final state compared with the fault-free model.",
+  note="PARTIAL: the set of crash images (commit-log prefixes) is not derived inside the model, it is enumerated from the real write log; faults only in flush commits. Known finding F14 (head-side delete on a non-atomic datastore) is reported as KNOWN-FINDING.",
+  technique="Lean 4 proof (restart refinement, reopen on arbitrary images, proved counter-example) + exhaustive crash-point enumeration on the real store"),
 }
